@@ -27,6 +27,9 @@ type Scenario struct {
 	EarlyWindow time.Duration
 	MaxSteps    uint64
 	Weight      int // share of the time budget (default 1)
+	// UnorderedSUT: the code under test ranges over a Go map whose order the harness cannot own; a finding is
+	// confirmed by its violation key reproducing in two of up to eight replays instead of by identical replays
+	UnorderedSUT bool
 }
 
 // WithPlainPoints returns the scenario with writes to plain shared memory as
@@ -140,7 +143,7 @@ func newExplorer(sc Scenario) *Explorer {
 	if sc.EarlyWindow == 0 {
 		sc.EarlyWindow = 2 * time.Second
 	}
-	return &Explorer{SelectFairness: 3, EarlyWindow: int64(sc.EarlyWindow), Name: sc.Name, Delay: sc.Delay, UseMemo: sc.Memo, MaxSteps: sc.MaxSteps, Horizon: h, Body: sc.Body, Post: sc.Post}
+	return &Explorer{SelectFairness: 3, EarlyWindow: int64(sc.EarlyWindow), Name: sc.Name, Delay: sc.Delay, UseMemo: sc.Memo, MaxSteps: sc.MaxSteps, Horizon: h, Body: sc.Body, Post: sc.Post, UnorderedSUT: sc.UnorderedSUT}
 }
 
 func runScenario(sc Scenario, deadline time.Time, si, sn int) scenarioReport {
